@@ -11,12 +11,10 @@ import (
 	"fmt"
 	"os"
 	"path/filepath"
-	"runtime"
 	"sort"
 	"strings"
 	"sync"
 	"sync/atomic"
-	"time"
 
 	"github.com/innovationb1ue/RedisGO/server"
 	"github.com/innovationb1ue/RedisGO/util"
@@ -32,6 +30,9 @@ func runKeyscan(seed uint64, tier string, outdir string) (string, error) {
 	nstable, nw, nr, scans := 24, 4, 3, 1000
 	if tier == "thorough" {
 		scans = 20000
+	}
+	if raceEnabled {
+		scans /= 4
 	}
 	// stable keys: half of them in the last three shards, the rest anywhere
 	stable := []string{}
@@ -53,6 +54,7 @@ func runKeyscan(seed uint64, tier string, outdir string) (string, error) {
 		}
 	}
 	var readersLeft, nscan, nviol, nchurn atomic.Int64
+	var prog progress
 	readersLeft.Store(int64(nr))
 	var mu sync.Mutex
 	reports := []string{}
@@ -81,6 +83,7 @@ func runKeyscan(seed uint64, tier string, outdir string) (string, error) {
 						execInProc(mgr, toBytes(command{"SET", k, "x"}))
 					}
 					nchurn.Add(1)
+					prog.tick()
 				}
 				for i := 0; i < burst; i++ {
 					execInProc(mgr, toBytes(command{"DEL", fmt.Sprintf("churn%d.%d", w, i)}))
@@ -97,6 +100,7 @@ func runKeyscan(seed uint64, tier string, outdir string) (string, error) {
 			for i := 0; i < scans; i++ {
 				out := execInProc(mgr, toBytes(command{"KEYS", "*"}))
 				nscan.Add(1)
+				prog.tick()
 				if !strings.HasPrefix(out, "*[") {
 					report("MALFORMED KEYS * -> " + out)
 					continue
@@ -143,15 +147,7 @@ func runKeyscan(seed uint64, tier string, outdir string) (string, error) {
 	done := make(chan struct{})
 	go func() { wg.Wait(); close(done) }()
 	close(start)
-	status := "OK"
-	select {
-	case <-done:
-	case <-time.After(120 * time.Second):
-		status = "HANG"
-		buf := make([]byte, 1<<22)
-		nb := runtime.Stack(buf, true)
-		os.WriteFile(filepath.Join(dir, "hang.txt"), buf[:nb], 0o644)
-	}
+	status := awaitDone(done, &prog, dir, tier)
 	var b strings.Builder
 	for _, r := range reports {
 		b.WriteString(r + "\n")
